@@ -39,9 +39,9 @@ Proof. destruct a, b; simpl; intros H; try reflexivity; discriminate H. Qed.
 
 Lemma lstate_eqb_eq a b : lstate_eqb a b = true -> a = b.
 Proof.
-  destruct a as [[fa na ta] [hta hpa hwa] ia ca tta [wia wwa wita wada wpa] [c1 c2 c3 c4 c5 c6 c7] oa].
-  destruct b as [[fb nb tb] [htb hpb hwb] ib cb ttb [wib wwb witb wadb wpb] [d1 d2 d3 d4 d5 d6 d7] ob].
-  unfold lstate_eqb; cbn [l_k l_sh l_i l_c l_t l_w l_n l_own k_fault k_named k_to h_tasks h_proc h_world
+  destruct a as [[fa na ta sa] [hta hpa hwa] ia ca tta [wia wwa wita wada wpa] [c1 c2 c3 c4 c5 c6 c7] oa].
+  destruct b as [[fb nb tb sb] [htb hpb hwb] ib cb ttb [wib wwb witb wadb wpb] [d1 d2 d3 d4 d5 d6 d7] ob].
+  unfold lstate_eqb; cbn [l_k l_sh l_i l_c l_t l_w l_n l_own k_fault k_named k_to k_stub h_tasks h_proc h_world
                           f_inq f_watch f_iter f_adv f_ph c_exec c_canc c_fail c_stage c_coll c_cncl c_uns].
   intros H. repeat (apply andb_true_iff in H; destruct H as [H ?]).
   repeat match goal with
@@ -82,22 +82,36 @@ Proof.
   apply lstate_eqb_eq in H. subst v0. apply PM.elements_correct. exact E.
 Qed.
 
+Lemma fold_and (p : lstate -> bool) (l : list (positive * lstate)) : forall acc,
+  fold_left (fun a (kv : positive * lstate) => a && p (snd kv)) l acc = true ->
+  acc = true /\ forall kv, In kv l -> p (snd kv) = true.
+Proof.
+  induction l as [|x l IH]; intros acc H; cbn [fold_left] in H.
+  - split; [exact H | intros kv []].
+  - destruct (IH _ H) as [Ha Hl]. apply andb_true_iff in Ha as [Ha Hx].
+    split; [exact Ha|]. intros kv [<-|Hk]; [exact Hx | exact (Hl _ Hk)].
+Qed.
+
+Lemma allp_spec (mm : lset) p : allp mm p = true -> forall kv, In kv (PM.elements mm) -> p (snd kv) = true.
+Proof.
+  unfold allp. rewrite PM.fold_1. intros H. exact (proj2 (fold_and p _ _ H)).
+Qed.
+
 Lemma InS_next v v' : InS v -> In v' (lnext v) -> InS v'.
 Proof.
   intros Hv Hn. destruct m_checks as [C _].
-  unfold closed in C. rewrite forallb_forall in C.
-  specialize (C _ (InS_elements _ Hv)). cbn [snd] in C. rewrite forallb_forall in C.
-  exact (C _ Hn).
+  pose proof (allp_spec _ _ C _ (InS_elements _ Hv)) as C'. cbn [snd] in C'. rewrite forallb_forall in C'.
+  exact (C' _ Hn).
 Qed.
 
 Lemma InS_safe v : InS v -> safe v = true.
 Proof.
   intros Hv. destruct m_checks as [_ [C _]].
-  unfold all_in in C. rewrite forallb_forall in C. exact (C _ (InS_elements _ Hv)).
+  exact (allp_spec _ _ C _ (InS_elements _ Hv)).
 Qed.
 
 Lemma all_consts_complete k : In k all_consts.
-Proof. destruct k as [[] [] []]; vm_compute; repeat (first [left; reflexivity | right]). Qed.
+Proof. destruct k as [[] [] [] []]; vm_compute; repeat (first [left; reflexivity | right]). Qed.
 
 Lemma InS_init k : InS (linit k).
 Proof.
